@@ -339,7 +339,7 @@ DEFAULT_EVENT = {"op": "", "n": 0, "lvl": -1, "size": -1, "stk": -1, "skip": Fal
                  "greedy": True, "sim": True, "fallback": False, "maa": True, "optsrc": True, "exact": False,
                  "ret": "none", "out": [], "raised": False, "exc": "", "xl": [], "mts": [], "orc": [],
                  "fail_at": 0, "solver_calls": 0, "loops": [], "work": 0, "ctl": [], "strategy": "internal", "bound": -1,
-                 "forbidden": [], "sonly": True, "cmpops": [], "other": EMPTY_PROJ}
+                 "forbidden": [], "sonly": True, "cmpops": [], "other": EMPTY_PROJ, "newcfg": {"maxm": 0, "candlim": 0, "rsthr": 0, "simbudget": 0, "nfvsthr": 0}}
 
 
 def lim(x):
@@ -462,6 +462,14 @@ def run_op(sd: SuccessionDiagram, op: dict, timeout_s: float = 20.0) -> tuple[Su
         elif kind == "expseeds":
             for i in list(sd.expanded_ids()):
                 sd.node_attractor_seeds(i, compute=True)
+            ret = "ok"
+        elif kind == "setcfg":
+            c = ev["newcfg"]
+            sd.config["max_motifs_per_node"] = c["maxm"]
+            sd.config["attractor_candidates_limit"] = c["candlim"]
+            sd.config["retained_set_optimization_threshold"] = c["rsthr"]
+            sd.config["minimum_simulation_budget"] = c["simbudget"]
+            sd.config["nfvs_size_threshold"] = c["nfvsthr"]
             ret = "ok"
         elif kind in ("new", "noop"):
             ret = "ok"
